@@ -57,6 +57,17 @@ Three further complete sub-products (each described at its section below):
            get_CorrelationFunction([temperature]): refusal of different temperatures at every
            request, temperature bookkeeping / data of the result, the spectral density and its
            operands unchanged by a request.
+  REUSED-INPUTS  construction inputs the CALLER keeps and changes: families of 2 / 3 functions
+           built one after another from ONE parameter dictionary / ONE list of dictionaries that
+           is updated between (and after) the constructions x units context of the construction
+           (every unit; spectral densities also outside any context) x every later use of every
+           member (as it is, operand of every '+' tree, copy(), frequency-domain parts, every
+           in-place route and the rebuilds that follow it).
+  REFUSED  histories of additions through every public route (x = x + y, x += y, add_to_data,
+           add_to_data2) that contain refused steps (other temperature: analytic / value-defined
+           / composite operand; other axis), the exception caught by the caller: every
+           observable of x after the refusal is what it was before, x goes on being the ledger
+           sum of what was really added, in every later sum, copy and measurement.
 """
 import itertools
 
@@ -94,11 +105,17 @@ CF_LEAVES = {
     "r": "value-defined",
     "m": dict(ftype="OverdampedBrownian-HighTemperature", reorg=0.0, cortime=100.0, T=77.0),
     "t": "value-defined",
+    # REFUSED operands (sub-product REFUSED): a value-defined function at another temperature
+    # with a non-zero reorganisation energy; a component at another temperature with the longest
+    # cut-off time of all (member of the composite operand "D")
+    "k": "value-defined",
+    "f": dict(ftype="OverdampedBrownian", reorg=8.0, cortime=300.0, T=77.0, matsubara=20),
 }
 # value-defined leaves: declared reorganisation energy (1/cm), temperature, kind of data
 VALUE_LEAVES = {"v": dict(reorg=15.0, T=300.0, real=False),
                 "r": dict(reorg=0.0, T=300.0, real=True),
-                "t": dict(reorg=0.0, T=77.0, real=True)}
+                "t": dict(reorg=0.0, T=77.0, real=True),
+                "k": dict(reorg=18.0, T=77.0, real=False)}
 SD_LEAVES = {
     "a": dict(ftype="OverdampedBrownian", reorg=20.0, cortime=50.0, T=300.0),
     "b": dict(ftype="UnderdampedBrownian", reorg=35.0, gamma=30.0, freq=300.0, T=300.0),
@@ -1700,8 +1717,628 @@ def convert_cases(tier):
     return cs
 
 
+# =====================================================================================
+# Sub-product REUSED-INPUTS: construction inputs that the CALLER keeps and goes on changing
+# =====================================================================================
+# The caller owns what it hands to a constructor.  The usual way of making a family of baths
+# is ONE parameter dictionary (or one list of dictionaries) that is updated between the
+# constructions; whatever the caller does to it afterwards, the functions built before stay the
+# functions they were built as - in their data AND in the component list they are rebuilt from
+# (left operand of '+', x += x, copy(), frequency-domain parts), in every units context of the
+# construction.  Product:
+#   form      "dict": every member is built from the SAME dictionary object, which the caller
+#             turns into the parameters of the next member (keys that are not needed any more
+#             are deleted, values that differ are assigned);
+#             "list": every member is a composite built from the SAME list object holding the
+#             SAME dictionary objects (the list is shortened / extended, the dictionaries are
+#             updated in place);
+#             after the last construction the inputs are changed once more (to a component of
+#             another type at another temperature that is never constructed; the list gets one
+#             more entry), so that the last member is exposed as well;
+#   members   every sequence (with repetition, every order) of 2 / 3 members over the alphabet
+#             (value-defined members get a new array of values each);
+#   context   constructions inside energy_units(U) for every unit U (parameters given in U) and,
+#             for spectral densities, OUTSIDE any context (internal units, no context manager at
+#             all; the constructor of CorrelationFunction insists on a context);
+#   use       afterwards every member is used in every way: as it is (data, reorganisation
+#             energy, component list, temperature, cut-off time), as left and right operand in
+#             every '+' tree over the members (the same objects, with repetition; thorough:
+#             the additions also inside energy_units('1/cm')), copy() without / inside a
+#             context, the even / odd frequency-domain parts (getters), and - on a family built
+#             anew for each - as target and operand of x += y, x.add_to_data(y),
+#             x.add_to_data2(y), x += x, the target then being rebuilt (copy(), target + y).
+# Oracle: ledger of the members built separately from fresh dictionaries inside
+# energy_units('1/cm'); the members are unchanged by every non-mutating use.
+# Not part of it: the ARRAY of values of a value-defined function is that function's data (a
+# DFunction holds the array it is given); the caller does not write into it here.
+FAM_CTX = {"quick": ["int", "none", "1/cm", "eV"], "thorough": ["int", "none", "1/cm", "eV", "THz"]}
+FAM_ALPHA = {   # tier: cls: (alphabet of pairs, alphabet of triples)
+    "quick": {"cf": (["a", "b", "c", "v"], ["a", "b"]), "sd": (["a", "b", "c"], ["a", "b"])},
+    "thorough": {"cf": (["a", "b", "c", "v", "u", "w"], ["a", "b", "c", "v"]),
+                 "sd": (["a", "b", "c", "w", "p", "q"], ["a", "b", "c"])}}
+FAM_LISTS = {"quick": ([["a"], ["a", "b"], ["b", "c"]], []),
+             "thorough": ([["a"], ["b"], ["c"], ["a", "b"], ["b", "a"], ["b", "c"], ["c", "c"],
+                           ["a", "b", "c"]], [["a"], ["a", "b"], ["b", "c"]])}
+FAM_POISON = {"cf": dict(ftype="OverdampedBrownian-HighTemperature", reorg=99.0, cortime=17.0,
+                         T=77.0),
+              "sd": dict(ftype="OverdampedBrownian", reorg=99.0, cortime=17.0, T=77.0)}
+FAM_INPLACE = ["iadd", "add_to_data", "add_to_data2"]
+
+
+class _NoContext(object):
+    def __enter__(self):
+        return self
+
+    def __exit__(self, *a):
+        return False
+
+
+def _fam_context(ctx):
+    return _NoContext() if ctx in (None, "none") else isolation.qr().energy_units(ctx)
+
+
+def _caller_update(p, new):
+    """The caller turns its dictionary p into the parameters `new`."""
+    for k in [k for k in p if k not in new]:
+        del p[k]
+    for k, v in new.items():
+        if k not in p or p[k] != v:
+            p[k] = v
+
+
+def _member_params(cls, name, unit):
+    if is_value(cls, name):
+        vl = VALUE_LEAVES[name]
+        return dict(ftype="Value-defined", reorg=_conv(vl["reorg"], unit), T=vl["T"])
+    return params_of(cls, name, unit)
+
+
+def _member_values(cls, name, ta):
+    if not is_value(cls, name):
+        return None
+    t = ta.data
+    if VALUE_LEAVES[name]["real"]:
+        return (2e-5 * numpy.exp(-t / 250.0) * numpy.cos(t / 40.0)) + 0j
+    return (3e-5 * numpy.exp(-t / 80.0) * numpy.cos(t / 37.0) - 1j * 2e-5 * numpy.exp(-t / 60.0))
+
+
+def build_family(cls, form, members, ctx, ta):
+    """The caller's side: one dictionary / one list of dictionaries for the whole family."""
+    unit = "int" if ctx == "none" else ctx
+    poison = dict(FAM_POISON[cls])
+    for k in ENERGY_KEYS:
+        if k in poison:
+            poison[k] = _conv(poison[k], unit)
+    fam = []
+    if form == "dict":
+        p = {}
+        for name in members:
+            _caller_update(p, _member_params(cls, name, unit))
+            vals = _member_values(cls, name, ta)
+            with _fam_context(ctx):
+                fam.append(_cls(cls)(ta, p) if vals is None else _cls(cls)(ta, p, values=vals))
+        _caller_update(p, poison)
+    else:
+        lst, pool = [], []
+        for names in members:
+            while len(lst) > len(names):
+                lst.pop()
+            while len(lst) < len(names):
+                if len(pool) <= len(lst):
+                    pool.append({})
+                lst.append(pool[len(lst)])
+            for d_, name in zip(lst, names):
+                _caller_update(d_, _member_params(cls, name, unit))
+            with _fam_context(ctx):
+                fam.append(_cls(cls)(ta, lst))
+        for d_ in pool:
+            _caller_update(d_, poison)
+        lst.append(dict(poison))
+    return fam
+
+
+def _full_state(f):
+    return {"data": numpy.array(f.data, copy=True), "lamb": float(f.lamb),
+            "temperature": float(getattr(f, "temperature", -1.0)),
+            "cutoff_time": float(getattr(f, "cutoff_time", -1.0)),
+            "params": [dict(p) for p in f.params]}
+
+
+def _state_changes(f, st):
+    """Names of the observables of f that are not what the record st says."""
+    out = []
+    if not numpy.array_equal(numpy.asarray(f.data), st["data"]):
+        out.append("data")
+    if float(f.lamb) != st["lamb"]:
+        out.append("reorganisation-energy")
+    if float(getattr(f, "temperature", -1.0)) != st["temperature"]:
+        out.append("temperature")
+    if float(getattr(f, "cutoff_time", -1.0)) != st["cutoff_time"]:
+        out.append("cutoff-time")
+    now = [dict(p) for p in f.params]
+    if len(now) != len(st["params"]):
+        out.append("component-list-length")
+    elif now != st["params"]:
+        out.append("component-list-content")
+    return out
+
+
+def _params_match(got, want):
+    """Component dictionaries (internal units) against those of the ledger."""
+    if len(got) != len(want):
+        return False
+    for g, w in zip(got, want):
+        if set(g.keys()) != set(w.keys()):
+            return False
+        for k in w:
+            if isinstance(w[k], float) and not isinstance(w[k], bool):
+                try:
+                    if abs(float(g[k]) - w[k]) > 1e-10 * abs(w[k]):
+                        return False
+                except Exception:
+                    return False
+            elif g[k] != w[k]:
+                return False
+    return True
+
+
+def check_against_ledger(cls, f, names, ta, viol, pre, tag, where):
+    """Every observable of f against the ledger sum of the separately built components."""
+    comps = [ledger(cls, n, "1/cm", ta) for n in names]
+    exp_data = sum((c.data for c in comps[1:]), numpy.array(comps[0].data, copy=True))
+    exp_lamb = sum(c.lamb for c in comps)
+    ok, err = approx(f.data, exp_data, TOL)
+    if not ok:
+        viol.append(("%s/data-not-sum-of-components/%s" % (pre, tag),
+                     "%s: data differ from the sum of the separately built components' data by "
+                     "%g (scale %g)" % (where, err, float(numpy.max(numpy.abs(exp_data)))),
+                     {"err": err}))
+    if abs(float(f.lamb) - exp_lamb) > 1e-10 * abs(exp_lamb):
+        viol.append(("%s/reorganisation-energy-not-additive/%s" % (pre, tag),
+                     "%s: lamb %r, sum of the components %r" % (where, float(f.lamb), exp_lamb),
+                     None))
+    with isolation.qr().energy_units("1/cm"):
+        declared = float(f.get_reorganization_energy())
+    decl_exp = sum(declared_reorg(cls, n) for n in names)
+    if abs(declared - decl_exp) > 1e-6 * decl_exp:
+        viol.append(("%s/declared-reorganisation-energy/%s" % (pre, tag),
+                     "%s: get_reorganization_energy() = %r 1/cm, declared sum %r"
+                     % (where, declared, decl_exp), None))
+    want = [p for c in comps for p in c.params]
+    got = [dict(p) for p in f.params]
+    if len(got) != len(want):
+        viol.append(("%s/component-list-length/%s" % (pre, tag),
+                     "%s: %d components recorded, %d added" % (where, len(got), len(want)), None))
+    elif not _params_match(got, want):
+        viol.append(("%s/component-list-content/%s" % (pre, tag),
+                     "%s: recorded components %r, the components are %r" % (where, got, want),
+                     None))
+    if cls == "cf":
+        if float(f.temperature) != comps[0].temperature:
+            viol.append(("%s/temperature/%s" % (pre, tag),
+                         "%s: temperature %r, components at %r"
+                         % (where, float(f.temperature), comps[0].temperature), None))
+        wct = max(c.cutoff_time for c in comps)
+        if abs(float(f.cutoff_time) - wct) > 1e-9 * abs(wct):
+            viol.append(("%s/cutoff-time/%s" % (pre, tag),
+                         "%s: cut-off time %r, the longest one of the components is %r"
+                         % (where, float(f.cutoff_time), wct), None))
+
+
+_FTLEDGER = {}
+
+
+def ft_ledger(name, part, ta):
+    key = (name, part, int(ta.length), float(ta.step))
+    if key not in _FTLEDGER:
+        f = make_leaf("cf", name, "1/cm", ta)
+        _FTLEDGER[key] = numpy.array(getattr(f, "get_" + FT_CLASS[part])().data, copy=True)
+    return _FTLEDGER[key]
+
+
+def fam_str(case):
+    ms = case["members"]
+    s = ", ".join(m if isinstance(m, str) else "[" + ",".join(m) + "]" for m in ms)
+    return "family (%s) from one %s, built %s" % (
+        s, "dictionary" if case["form"] == "dict" else "list of dictionaries",
+        "outside any context" if case["ctx"] == "none" else "inside energy_units(%r)" % case["ctx"])
+
+
+def _fam_ok(t, valued):
+    if isinstance(t, str):
+        return True
+    _, l, r = t
+    if any(x in valued for x in leaves_of(l)):
+        return False
+    return _fam_ok(l, valued) and _fam_ok(r, valued)
+
+
+def _fam_trees(n, kmax, valued):
+    """Every '+' tree with 2 .. kmax leaves over the member indices; value-defined members only
+    as right-hand operands."""
+    out = []
+    idx = [str(i) for i in range(n)]
+    for k in range(2, kmax + 1):
+        for t in all_trees(idx, k):
+            if _fam_ok(t, valued):
+                out.append(t)
+    return out
+
+
+def _fam_eval(t, fam):
+    if isinstance(t, str):
+        return fam[int(t)]
+    return _fam_eval(t[1], fam) + _fam_eval(t[2], fam)
+
+
+def eval_family(case):
+    cls, form, members, ctx = case["cls"], case["form"], case["members"], case["ctx"]
+    ta = axis_of(case)
+    viol = []
+    hs = fam_str(case)
+    names_of = [[m] if isinstance(m, str) else list(m) for m in members]
+    flat = [x for ns in names_of for x in ns]
+    suffix = _special_suffix(cls, flat)
+    built = "built-outside-contexts" if ctx == "none" else "built-in-%s" % ctx
+    tagb = "%s/%s/%s" % (cls, form, built)
+    pre = "caller-reused-inputs"
+    n = len(members)
+    valued = set(str(i) for i in range(n) if any(is_value(cls, x) for x in names_of[i]))
+    nev = [0]
+
+    def attempt(what, use, fn):
+        nev[0] += 1
+        try:
+            return fn()
+        except Exception as e:
+            viol.append(("%s/use-raises/%s/%s" % (pre, use, tagb),
+                         "%s; %s raised %s: %s" % (hs, what, type(e).__name__, str(e)[:100]),
+                         None))
+            return None
+
+    fam = build_family(cls, form, members, ctx, ta)
+    # 1. the members as they are, after the caller has gone on changing its inputs
+    for k, f in enumerate(fam):
+        check_against_ledger(cls, f, names_of[k], ta, viol, pre, "member-as-it-is/" + tagb,
+                             "%s; member %d" % (hs, k + 1))
+    snaps = [_full_state(f) for f in fam]
+
+    def intact(after):
+        """The members after a non-mutating use.  A use that changes a member ends the case:
+        every later use would see another family (and a component list that grows with every
+        use grows without bound)."""
+        for k, f in enumerate(fam):
+            ch = _state_changes(f, snaps[k])
+            if ch:
+                viol.append(("%s/member-changed-by-use-as-operand/%s/%s"
+                             % (pre, "+".join(ch), tagb),
+                             "%s; member %d changed (%s) by %s"
+                             % (hs, k + 1, ", ".join(ch), after), None))
+                return False
+        return True
+
+    def ended():
+        return {"nontrivial": True, "n": nev[0],
+                "violations": _finish(viol, suffix, axis_suffix(case)),
+                "outcome": [hs, "member-changed-by-use"]}
+    # 2. every '+' tree over the members
+    for addctx in case["add_ctxs"]:
+        use = "plus" if addctx is None else "plus-in-%s" % addctx
+        for t in _fam_trees(n, case["max_leaves"], valued):
+            def go(t=t, addctx=addctx):
+                with _fam_context(addctx):
+                    return _fam_eval(t, fam)
+            res = attempt(tree_str(t), use, go)
+            if res is not None:
+                lv = [x for i in leaves_of(t) for x in names_of[int(i)]]
+                check_against_ledger(cls, res, lv, ta, viol, pre, "%s/%s" % (use, tagb),
+                                     "%s; %s over the members (numbered from 0)"
+                                     % (hs, tree_str(t)))
+            if not intact("%s over the members (numbered from 0)" % tree_str(t)):
+                return ended()
+    # 3. rebuilt from the component list: copy(), frequency-domain parts
+    for k, f in enumerate(fam):
+        if str(k) in valued:
+            continue
+        for cctx in (None, "1/cm"):
+            use = "copy" if cctx is None else "copy-in-%s" % cctx
+
+            def go(f=f, cctx=cctx):
+                with _fam_context(cctx):
+                    return f.copy()
+            cp = attempt("copy() of member %d" % (k + 1), use, go)
+            if cp is not None:
+                check_against_ledger(cls, cp, names_of[k], ta, viol, pre,
+                                     "%s/%s" % (use, tagb),
+                                     "%s; copy() of member %d" % (hs, k + 1))
+            if not intact("copy() of member %d" % (k + 1)):
+                return ended()
+        if cls == "cf" and all(x in ("a", "b", "c", "e") for x in names_of[k]):
+            for part in ("E", "O"):
+                ft = attempt("get_%s() of member %d" % (FT_CLASS[part], k + 1),
+                             "ft-part-" + part, lambda f=f, part=part:
+                             getattr(f, "get_" + FT_CLASS[part])())
+                if ft is None:
+                    continue
+                ref = None
+                for x in names_of[k]:
+                    d_ = ft_ledger(x, part, ta)
+                    ref = numpy.array(d_, copy=True) if ref is None else ref + d_
+                ok, err = approx(ft.data, ref, TOL)
+                if not ok:
+                    viol.append(("%s/ft-part-not-that-of-the-components/%s/%s"
+                                 % (pre, FT_PARITY[part][0], tagb),
+                                 "%s; the %s frequency-domain part of member %d differs from "
+                                 "the part of the separately built components by %g (scale %g)"
+                                 % (hs, FT_PARITY[part][0], k + 1, err,
+                                    float(numpy.max(numpy.abs(ref)))), {"err": err}))
+    if not intact("taking its frequency-domain parts"):
+        return ended()
+    # 4. in-place routes, each on a family built anew
+    progs = [(op, i, j) for op in FAM_INPLACE for i in range(n) for j in range(n) if i != j]
+    progs += [("iadd-self", i, i) for i in range(n) if str(i) not in valued]
+    last = None
+    for op, i, j in progs:
+        fam2 = build_family(cls, form, members, ctx, ta)
+        x, y = fam2[i], fam2[j]
+        sy = _full_state(y)
+        what = "member %d %s member %d" % (i + 1, op, j + 1)
+
+        def go(x=x, y=y, op=op):
+            if op in ("iadd", "iadd-self"):
+                x += y
+            elif op == "add_to_data":
+                x.add_to_data(y)
+            else:
+                x.add_to_data2(y)
+            return x
+        if attempt(what, op, go) is None:
+            continue
+        lv = names_of[i] + names_of[j]
+        check_against_ledger(cls, x, lv, ta, viol, pre, "%s/%s" % (op, tagb),
+                             "%s; %s" % (hs, what))
+        if y is not x:
+            ch = _state_changes(y, sy)
+            if ch:
+                viol.append(("%s/in-place-addition-changed-operand/%s/%s/%s"
+                             % (pre, op, "+".join(ch), tagb),
+                             "%s; %s changed the operand (%s)" % (hs, what, ", ".join(ch)), None))
+        last = x
+        if len(x.params) != len(lv) or len(y.params) != len(names_of[j]):
+            continue        # reported above; nothing is rebuilt from such a component list
+        if any(is_value(cls, v) for v in lv):
+            continue
+        cp = attempt("copy() after " + what, op + "-then-copy", lambda x=x: x.copy())
+        if cp is not None:
+            check_against_ledger(cls, cp, lv, ta, viol, pre, "%s-then-copy/%s" % (op, tagb),
+                                 "%s; copy() after %s" % (hs, what))
+        if y is not x:
+            sm = attempt("target + operand after " + what, op + "-then-plus",
+                         lambda x=x, y=y: x + y)
+            if sm is not None:
+                check_against_ledger(cls, sm, lv + names_of[j], ta, viol, pre,
+                                     "%s-then-plus/%s" % (op, tagb),
+                                     "%s; (target + operand) after %s" % (hs, what))
+    out = numpy.asarray((last if last is not None else fam[0]).data)
+    return {"nontrivial": True, "n": nev[0], "violations": _finish(viol, suffix, axis_suffix(case)),
+            "outcome": [hs, round(float(numpy.abs(out).sum()), 9),
+                        [round(float(f.lamb) * 1e6, 6) for f in fam]]}
+
+
+def family_cases(tier):
+    q = tier == "quick"
+    cs = []
+    for cls in ("cf", "sd"):
+        pairs, triples = FAM_ALPHA[tier][cls]
+        seqs = [("dict", list(s)) for s in itertools.product(pairs, repeat=2)]
+        seqs += [("dict", list(s)) for s in itertools.product(triples, repeat=3)]
+        l2, l3 = FAM_LISTS[tier]
+        seqs += [("list", [list(m) for m in s]) for s in itertools.product(l2, repeat=2)]
+        seqs += [("list", [list(m) for m in s]) for s in itertools.product(l3, repeat=3)]
+        for form, ms in seqs:
+            for ctx in FAM_CTX[tier]:
+                if ctx == "none" and cls == "cf":
+                    continue        # CorrelationFunction cannot be constructed outside a context
+                cs.append({"kind": "family", "cls": cls, "form": form, "members": ms,
+                           "ctx": ctx, "max_leaves": len(ms) if q else 3,
+                           "add_ctxs": [None] if q else [None, "1/cm"]})
+    cs.sort(key=lambda c: (len(c["members"]), c["form"] == "list"))
+    return cs
+
+
+# =====================================================================================
+# Sub-product REFUSED: a refused addition is no addition
+# =====================================================================================
+# One object x (a leaf or a list-built composite) and a history of <= 2 (quick) / <= 3
+# (thorough) steps; every step is an addition through one of the PUBLIC routes
+#   x = x + y | x += y | x.add_to_data(y) | x.add_to_data2(y)
+# with an operand y that is either admissible or has to be refused:
+#   "d"  an analytic component at another temperature (its cut-off time differs from x's),
+#   "k"  a value-defined function at another temperature with a non-zero reorganisation energy,
+#   "D"  a composite at another temperature holding the longest cut-off time of all,
+#   "X"  a function on ANOTHER time axis (the statement speaks of one axis; the library refuses:
+#        whenever it does, the same clauses apply; spectral densities know this refusal only);
+# every history contains at least one step that has to be refused; the exception is caught by
+# the caller, who goes on using x.
+# Oracle.  After a refused step EVERY observable of x is what it was before the step: data,
+# reorganisation energy (attribute and get_reorganization_energy()), temperature, cut-off time,
+# component list (length and content); the operand is unchanged as well.  After every step
+# (refused or not) x is the ledger sum of the components that were really added.  After the last
+# step x is used further: x + c, c + x, copy(), measured == declared reorganisation energy and
+# reorganization_energy_consistent() (correlation function).
+REF_OPS = ["plus", "iadd", "add_to_data", "add_to_data2"]
+REF_LEGAL = {"quick": ["b"], "thorough": ["b", "c"]}
+REF_ILLEGAL = {"cf": ["d", "k", "D", "X"], "sd": ["X"]}
+REF_REASON = {"d": "different-temperature", "k": "different-temperature/value-defined-operand",
+              "D": "different-temperature/composite-operand", "X": "different-axis"}
+REF_SYM = {"plus": "x=x+%s", "iadd": "x+=%s", "add_to_data": "x.add_to_data(%s)",
+           "add_to_data2": "x.add_to_data2(%s)"}
+
+
+def ref_str(case):
+    st = case["start"]
+    s = st[1] if st[0] == "leaf" else "list[" + ",".join(st[1]) + "]"
+    return "; ".join(["x=" + s] + [REF_SYM[op] % y for op, y in case["steps"]])
+
+
+def _ref_operand(cls, y, ta):
+    qr = isolation.qr()
+    if y == "X":
+        other = qr.TimeAxis(0.0, int(ta.length), 2.0 * float(ta.step))
+        return make_leaf(cls, "b", "1/cm", other)
+    if y == "D":
+        with qr.energy_units("1/cm"):
+            return qr.CorrelationFunction(ta, [params_of("cf", "d", "1/cm"),
+                                               params_of("cf", "f", "1/cm")])
+    return make_leaf(cls, y, "1/cm", ta)
+
+
+def eval_refused(case):
+    qr = isolation.qr()
+    cls, start, steps = case["cls"], case["start"], case["steps"]
+    ta = axis_of(case)
+    viol = []
+    hs = ref_str(case)
+    pre = "refused-addition"
+    if start[0] == "leaf":
+        names = [start[1]]
+        x = make_leaf(cls, start[1], "1/cm", ta)
+    else:
+        names = list(start[1])
+        with qr.energy_units("1/cm"):
+            x = _cls(cls)(ta, [params_of(cls, n, "1/cm") for n in names])
+    outs = []
+
+    def done(extra):
+        return {"nontrivial": True, "violations": _finish(viol, "", axis_suffix(case)),
+                "outcome": [hs, outs, extra]}
+
+    for k, (op, yname) in enumerate(steps):
+        where = "%s [step %d]" % (hs, k + 1)
+        y = _ref_operand(cls, yname, ta)
+        illegal = yname in REF_REASON
+        sx, sy = _full_state(x), _full_state(y)
+        with qr.energy_units("1/cm"):
+            dx = float(x.get_reorganization_energy())
+        old, err = x, None
+        try:
+            if op == "plus":
+                x = old + y
+            elif op == "iadd":
+                x += y
+            elif op == "add_to_data":
+                x.add_to_data(y)
+            else:
+                x.add_to_data2(y)
+        except Exception as e:
+            err = str(e)[:80]
+            x = old
+        ch = _state_changes(y, sy)
+        if ch:
+            viol.append(("%s/operand-changed/%s/%s/%s/%s"
+                         % (pre, cls, op, "refused" if err else "accepted", "+".join(ch)),
+                         "%s: the operand changed (%s)" % (where, ", ".join(ch)), None))
+        if illegal:
+            reason = REF_REASON[yname]
+            if err is None:
+                if yname == "X":
+                    # functions on different axes: outside the statement, nothing to compare
+                    outs.append("other-axis-accepted")
+                    return done(None)
+                viol.append(("different-temperatures-accepted/%s/%s/%s" % (cls, op, reason),
+                             "%s: temperatures %r and %r were added"
+                             % (where, sx["temperature"], sy["temperature"]), None))
+                outs.append("accepted-different-T")
+                return done(None)
+            outs.append("refused")
+            ch = _state_changes(old, sx)
+            with qr.energy_units("1/cm"):
+                dnow = float(old.get_reorganization_energy())
+            if dnow != dx and "reorganisation-energy" not in ch:
+                ch.append("reorganisation-energy")
+            for c_ in ch:
+                viol.append(("%s/left-operand-changed/%s/%s/%s/%s" % (pre, cls, op, reason, c_),
+                             "%s: the refused addition (%s) changed the %s of x (reorganisation "
+                             "energy %r -> %r 1/cm, cut-off time %r -> %r, %d -> %d components)"
+                             % (where, err, c_, dx, dnow, sx["cutoff_time"],
+                                float(getattr(old, "cutoff_time", -1.0)), len(sx["params"]),
+                                len(old.params)), None))
+        else:
+            if err is not None:
+                viol.append(("admissible-addition-refused/%s/%s/in-a-history-with-refusals"
+                             % (cls, op), "%s raised: %s" % (where, err), None))
+                outs.append("refused-admissible")
+                return done(None)
+            outs.append("added")
+            names = names + [yname]
+            if op == "plus":
+                ch = _state_changes(old, sx)
+                if ch:
+                    viol.append(("addition-changed-left-operand/%s/in-a-history-with-refusals/%s"
+                                 % (cls, "+".join(ch)), "%s: x + y changed x" % where, None))
+        check_against_ledger(cls, x, names, ta, viol, pre,
+                             "history/%s/after-%s-%s" % (cls, "refused" if illegal else "accepted",
+                                                         op), where)
+    # x is used further
+    where = hs + " [afterwards]"
+    c = make_leaf(cls, "c", "1/cm", ta)
+    for use, fn, lv in (("x-plus-c", lambda: x + c, names + ["c"]),
+                        ("c-plus-x", lambda: c + x, ["c"] + names),
+                        ("copy", lambda: x.copy(), names)):
+        try:
+            res = fn()
+        except Exception as e:
+            viol.append(("%s/later-use-raises/%s/%s" % (pre, cls, use),
+                         "%s: %s raised %s" % (where, use, str(e)[:80]), None))
+            continue
+        check_against_ledger(cls, res, lv, ta, viol, pre, "later-%s/%s" % (use, cls),
+                             "%s: %s" % (where, use))
+    meas = 0.0
+    if cls == "cf":
+        with qr.energy_units("1/cm"):
+            meas = float(x.measure_reorganization_energy())
+            cons = bool(x.reorganization_energy_consistent())
+            decl = float(x.get_reorganization_energy())
+        want = sum(declared_reorg("cf", n) for n in names)
+        tolq = cf_measure_tolerance(names, ta)
+        if not abs(meas - want) <= tolq * want:
+            viol.append(("%s/measured-reorganisation-energy/cf" % pre,
+                         "%s: measured %r 1/cm, the components that were added declare %r"
+                         % (where, meas, want), None))
+        if not abs(meas - decl) <= tolq * want + 1e-9 * abs(decl):
+            viol.append(("%s/measured-differs-from-declared/cf" % pre,
+                         "%s: measured %r 1/cm, get_reorganization_energy() %r"
+                         % (where, meas, decl), None))
+        if not cons:
+            viol.append(("%s/reorganization-energy-consistent-false/cf" % pre,
+                         "%s: reorganization_energy_consistent() is False" % where, None))
+    return done([round(float(x.lamb) * 1e6, 6), round(meas, 6),
+                 round(float(numpy.abs(numpy.asarray(x.data)).sum()), 9)])
+
+
+def refused_cases(tier):
+    """quick: <= 2 steps over one admissible and every inadmissible operand; thorough: <= 2
+    steps over two admissible and every inadmissible operand, 3 steps over {b} + {d, X}."""
+    q = tier == "quick"
+    cs = []
+    for cls in ("cf", "sd"):
+        plans = [(REF_LEGAL[tier] + REF_ILLEGAL[cls], (1, 2))]
+        if not q:
+            plans.append((["b"] + [y for y in REF_ILLEGAL[cls] if y in ("d", "X")], (3,)))
+        for operands, lengths in plans:
+            choices = [[op, y] for op in REF_OPS for y in operands]
+            for st in MEAS_STARTS:
+                for k in lengths:
+                    for steps in itertools.product(choices, repeat=k):
+                        if any(y in REF_REASON for _, y in steps):
+                            cs.append({"kind": "refused", "cls": cls, "start": st,
+                                       "steps": [list(s_) for s_ in steps]})
+    cs.sort(key=lambda c: len(c["steps"]))
+    return cs
+
+
 KINDS = {"list": eval_list, "ftsum": eval_ftsum, "measure": eval_measure,
-         "convert": eval_convert}
+         "convert": eval_convert, "family": eval_family, "refused": eval_refused}
 
 
 def eval_case(case):
@@ -1855,7 +2492,8 @@ def tree_cases(tier):
     return cs
 
 
-SECTIONS = [("addition-trees", tree_cases), ("list-built-composites", list_cases),
+SECTIONS = [("caller-reused-inputs", family_cases), ("refused-additions", refused_cases),
+            ("addition-trees", tree_cases), ("list-built-composites", list_cases),
             ("sums-of-frequency-domain-parts", ftsum_cases),
             ("measurement-histories", measure_cases),
             ("degenerate-operands", degenerate_cases),
@@ -1889,6 +2527,11 @@ def run(run):
                 "w = 0) x grid, under addition trees and measurement histories; composite "
                 "spectral densities x declared temperature per component x history of conversion "
                 "requests with / without an explicit temperature; "
+                "families of functions built from ONE dictionary / list of dictionaries of the "
+                "caller that is changed between and after the constructions x construction "
+                "context x every later use of every member; histories of additions through every "
+                "public route containing refused steps (other temperature / other axis) x every "
+                "observable of the left operand afterwards; "
                 "non-trivial = at least two leaves / components / one mutation step")
     run.assumptions = ["components' own data (each built separately by the library) are the "
                        "additivity ledger; the analytic formulas themselves belong to C06",
@@ -1921,7 +2564,14 @@ def run(run):
                        "request only; converted data are compared with the sum of the separately "
                        "converted components (the conversion is linear at a fixed temperature)",
                        "zero-reorganisation-energy operands: the value-defined one has purely real "
-                       "data (declared and measured reorganisation energy 0)"]
+                       "data (declared and measured reorganisation energy 0)",
+                       "reused construction inputs: the caller changes its parameter dictionaries "
+                       "/ its list, not the array of values of a value-defined function (that array "
+                       "IS the function's data); CorrelationFunction cannot be constructed outside "
+                       "an energy_units context (the library insists), SpectralDensity can",
+                       "an operand on another time axis is outside the statement: when the library "
+                       "refuses it the clauses of a refused addition apply, when it does not the "
+                       "history ends without a verdict"]
     q = run.tier == "quick"
     run.bounds = {"max_leaves": 3 if q else 4, "time_axis": [NT, DT],
                   "time_axes": {"axes_length_step": axes(run.tier), "max_leaves": 3,
@@ -1937,6 +2587,13 @@ def run(run):
                   "degenerate_operands": {"max_leaves": 3, "max_mutation_steps": 2},
                   "frequency_axes": {"axes_kind_points_step": faxes(run.tier), "max_leaves": 3,
                                      "max_mutation_steps": 1 if q else 2},
+                  "caller_reused_inputs": {"family_sizes": [2, 3], "alphabets": FAM_ALPHA[run.tier],
+                                           "list_members": FAM_LISTS[run.tier],
+                                           "construction_contexts": FAM_CTX[run.tier],
+                                           "max_leaves_of_sums": "family size" if q else 3},
+                  "refused_additions": {"max_steps": 2 if q else 3, "routes": REF_OPS,
+                                        "admissible_operands": REF_LEGAL[run.tier],
+                                        "refused_operands": REF_ILLEGAL},
                   "converted_composites": {"max_components": 3, "alphabet": CONV_ALPHA[run.tier],
                                            "declared_temperatures": LIST_T,
                                            "explicit_temperature": CONV_T,
